@@ -31,6 +31,8 @@ impl<T> AtomicOption<T> {
         #[cfg(may_verif)]
         crate::verif::point(crate::verif::Op::OptStore, self as *const _ as usize);
         self.inner.store(Some(t));
+        #[cfg(may_verif)]
+        may_queue::verif::after(self as *const _ as usize);
     }
 
     #[inline]
